@@ -1,22 +1,67 @@
 """C14 — mission queries return exactly the matching flight instances.
 
+The condition builders (Filter.to_sql and the Filter methods returning
+(text, parameters) pairs) are read on an *expanded view*: a private copy of
+the normalised function in which loops / comprehensions over a literal table
+(tuple, list, dict literal, .items(), zip / enumerate of literals, or a local
+bound once to one) are unrolled with the loop variables replaced by the row
+elements; statement-calls of helpers that push onto a list of their caller
+(nested closure, method, module function) are replaced by the helper's body;
+`if c: continue` / `if c: return` guard clauses become if/else; and
+getattr(x, '<literal>'), f-strings with literal fields, 'a' + 'b', 'abc'[1:]
+are folded; `C(text, params)` of a two-field NamedTuple is the pair
+(text, params) and `.field` of an element reads that component.  Locals are
+followed to their single or reaching definition.
+Four closure calls, four `if` blocks and one table-driven loop are therefore
+the same thing to R3 and R7.
+
 R1  to_sql is pure (effects): every attribute of `self` mutated in code
     reachable from `to_sql` is re-initialised on every path before its first
     mutation in that call.  One named exception: Filter._normalize rewrites
     str attributes to one-element lists under an isinstance(..., str) guard —
     an idempotent normalisation.
-R2  empty-collection unpack (T-GUARD): `a, b = …zip(*xs)` needs a dominating
-    non-emptiness test of xs.
-R3  placeholders = parameters (symbolic count): for each condition pushed,
-    the number of `?` in its text equals the number of parameters pushed with
-    it, as linear forms over len(<list>).
+R2  empty-collection unpack (T-GUARD), conditional: IF a collection is
+    unpacked with `a, b = …zip(*xs)` THEN xs is known to be non-empty there:
+    the site is evaluated under a guard that implies it, or on every CFG path
+    to it a test sends the empty case elsewhere and xs is not re-bound after
+    that test.  A tree without such a site satisfies the rule (R3 then decides
+    the flattening that replaced it); a positive control on embedded examples
+    keeps the matcher honest.
+R3  placeholders = parameters (symbolic count): the list of pairs is the
+    local the returned WHERE text is joined from; every builder's result must
+    be added to it; for each pair entering it (append / += / extend / list
+    literal / unrolled comprehension / returned list) the number of `?` in the
+    text equals the number of parameters, as linear forms over len(<list>)
+    (', '.join('?' * len(xs)), ','.join(['?'] * n) with n = len(xs),
+    ', '.join('?' for _ in xs), text helpers followed into their return; an
+    optional numeric field of the filter counts as one scalar).  A scalar
+    bound min_<c> / max_<c> is compared with column <c> by >= / <=, and every
+    numeric bound of the filter is pushed by some condition.  Flatten step, by
+    abstract evaluation of the returned pair (zip(*pairs) + nested
+    comprehension, comprehensions over the pairs, an explicit loop with
+    append / extend / +=, chain.from_iterable, sum(..., [])): the text is
+    ' AND '.join(<texts in order>), the parameters are the groups flattened in
+    order with scalars wrapped; `return '', []` only when the list is empty.
+    origin_* / destination_* filters constrain their own column.  Query-level
+    blocks push as many parameters as placeholders.
 R4  column <-> field agreement: SELECT list and row indices used by from_row
     agree by name; ORDER BY present on the unconditional path.
 R5  spatial compatibility rule counts the four spatial kinds in each of the
     three positions.
-R7  bounding-box bounds reach the SQL parameters exactly as given (BoundingBox
+R6  date bounds inclusive; every-nth anchored at the start day; limit/offset
+    (module-level names bound once to a literal / literal constructor call,
+    e.g. `_EPOCH = date(1970, 1, 1)`, are read as that value).
+R7  is-set tests of optional numerics (`int | None`, `float | None` fields of
+    Filter and the query classes) are made against None itself, never by
+    truthiness — wherever the truth value of the field decides something: if /
+    while / conditional expression / assert / comprehension filter, `not x`,
+    `x and …`, `x or default`, bool(x); the field may reach the test through a
+    table-driven loop or comprehension (expanded view), a local, or the
+    parameter of a helper.
+    Bounding-box bounds reach the SQL parameters exactly as given (BoundingBox
     is a plain value; no method rewrites its fields).
-R6  date bounds inclusive; every-nth anchored at the start day; limit/offset.
+R8  each query iterates a cursor created in the call that runs it; SQL and
+    parameters come from one to_sql() call.
 """
 
 from __future__ import annotations
@@ -378,6 +423,7 @@ class _Expander:
         fn = self.fn
         fn.body = self.block(fn.body)
         _CompUnroll(fn).visit(fn)
+        _PairLower(self.prog, self.fi.module).visit(fn)
         ast.fix_missing_locations(fn)
         _set_parents(fn)
         from ..loader import FunctionInfo
@@ -536,6 +582,55 @@ class _CompUnroll(ast.NodeTransformer):
 
     visit_ListComp = _comp
     visit_GeneratorExp = _comp
+
+
+def _pair_classes(prog, module):
+    """{id of class node: [field, field]} for the two-field NamedTuple classes visible in the module: their instances
+    *are* 2-tuples, `C(a, b)` builds the pair (a, b) and `.field` reads one of its components"""
+    cache = prog.__dict__.setdefault('_c14_pair_classes', {})
+    if module.relpath not in cache:
+        out = {}
+        for ci in prog.all_classes(src_only=False):
+            if any(b.split('.')[-1] == 'NamedTuple' for b in ci.base_exprs):
+                fields = list(ci.annotated_fields())
+                if len(fields) == 2:
+                    out[id(ci.node)] = fields
+        cache[module.relpath] = out
+    return cache[module.relpath]
+
+
+def _pair_fields(prog, module):
+    out = {}
+    for fields in _pair_classes(prog, module).values():
+        for i, f in enumerate(fields):
+            if out.setdefault(f, i) != i:
+                out[f] = None
+    return {f: i for f, i in out.items() if i is not None}
+
+
+class _PairLower(ast.NodeTransformer):
+    """Cond(text, params) / Cond(sql=text, params=params) of a two-field NamedTuple  ==>  (text, params)"""
+
+    def __init__(self, prog, module):
+        self.prog, self.module = prog, module
+        self.classes = _pair_classes(prog, module)
+
+    def visit_Call(self, n):
+        self.generic_visit(n)
+        if not self.classes or any(isinstance(a, ast.Starred) for a in n.args) or any(k.arg is None for k in n.keywords):
+            return n
+        ci = self.prog.resolve_class_expr(self.module, n.func)
+        fields = self.classes.get(id(ci.node)) if ci is not None else None
+        if fields is None:
+            return n
+        vals = dict(zip(fields, n.args))
+        for k in n.keywords:
+            if k.arg not in fields or k.arg in vals:
+                return n
+            vals[k.arg] = k.value
+        if len(vals) != 2 or len(n.args) > 2:
+            return n
+        return ast.copy_location(ast.Tuple(elts=[vals[f] for f in fields], ctx=ast.Load()), n)
 
 
 def _view(prog, fi):
@@ -1001,26 +1096,25 @@ def _list_inflows(view):
             yield x.func.value.id, x.args[-1]
 
 
-def _is_listify(e, tagged):
-    """`ps if isinstance(ps, list) else [ps]` (either polarity) for a name in tagged → that name"""
+def _listify_subject(e):
+    """X for `X if isinstance(X, list) else [X]` (either polarity), else None"""
     if not isinstance(e, ast.IfExp):
         return None
     t, a, b = e.test, e.body, e.orelse
     if isinstance(t, ast.UnaryOp) and isinstance(t.op, ast.Not):
         t, a, b = t.operand, b, a
-    nm = _isinstance_list(t)
-    if nm is None or nm not in tagged:
-        return None
-    if isinstance(a, ast.Name) and a.id == nm and isinstance(b, (ast.List, ast.Tuple)) and len(b.elts) == 1 \
-            and isinstance(b.elts[0], ast.Name) and b.elts[0].id == nm:
-        return nm
+    x = _isinstance_list(t)
+    if x is not None and norm(a) == norm(x) and isinstance(b, (ast.List, ast.Tuple)) and len(b.elts) == 1 \
+            and norm(b.elts[0]) == norm(x):
+        return x
     return None
 
 
 def _isinstance_list(t):
-    if isinstance(t, ast.Call) and call_name(t) == 'isinstance' and len(t.args) == 2 and isinstance(t.args[0], ast.Name) \
+    """X for the test `isinstance(X, list)`"""
+    if isinstance(t, ast.Call) and call_name(t) == 'isinstance' and len(t.args) == 2 \
             and norm(t.args[1]) in ('list', '(list, tuple)', '(tuple, list)', 'list | tuple', 'tuple | list'):
-        return t.args[0].id
+        return t.args[0]
     return None
 
 
@@ -1030,10 +1124,11 @@ class _Flatten:
     'listified' (seconds, each wrapped into a list unless it is one), 'flat' (seconds flattened in order),
     ('pair', a, b), ('join', sep, v), ('str', s), 'empty', ('bad', why), None (unknown)."""
 
-    def __init__(self, view, conds: str):
+    def __init__(self, view, conds: str, fields=None):
         self.fn = view.node
         self.C = conds
         self.bound = {}
+        self.fields = fields or {}  # component names of pair classes: {'sql': 0, 'params': 1}
 
     def elem(self, e):
         """what one loop / comprehension element expression denotes"""
@@ -1042,8 +1137,10 @@ class _Flatten:
         if isinstance(e, ast.Subscript) and isinstance(e.value, ast.Name) and self.bound.get(e.value.id) == 'e12':
             i = const_value(e.slice)
             return {0: 'e1', 1: 'e2', -2: 'e1', -1: 'e2'}.get(i)
-        nm = _is_listify(e, {k for k, v in self.bound.items() if v == 'e2'})
-        if nm is not None:
+        if isinstance(e, ast.Attribute) and isinstance(e.value, ast.Name) and self.bound.get(e.value.id) == 'e12':
+            return {0: 'e1', 1: 'e2'}.get(self.fields.get(e.attr))
+        x = _listify_subject(e)
+        if x is not None and self.elem(x) == 'e2':
             return 'eL'
         return None
 
@@ -1140,11 +1237,10 @@ class _Flatten:
             t, a, b = u.test, real_body(u.body)[0], real_body(u.orelse)[0]
             if isinstance(t, ast.UnaryOp) and isinstance(t.op, ast.Not):
                 t, a, b = t.operand, b, a
-            nm = _isinstance_list(t)
+            x = _isinstance_list(t)
             pa, pb = push(a), push(b)
-            if nm is not None and self.bound.get(nm) == 'e2' and pa is not None and pb is not None \
-                    and pa[0] == 'extend' and pb[0] == 'append' \
-                    and isinstance(pa[1], ast.Name) and pa[1].id == nm and isinstance(pb[1], ast.Name) and pb[1].id == nm:
+            if x is not None and self.elem(x) == 'e2' and pa is not None and pb is not None \
+                    and pa[0] == 'extend' and pb[0] == 'append' and norm(pa[1]) == norm(x) and norm(pb[1]) == norm(x):
                 return 'flat'
         return None
 
@@ -1229,6 +1325,7 @@ def rule_placeholders(ctx):
     cnt = _Count(prog, numeric)
     ts = fcls.find_method('to_sql')
     tv = _view(prog, ts)
+    pfields = _pair_fields(prog, fm)
     # condition builders: the other methods of Filter that return (text, parameters) pairs
     builders = {}
     for m in fcls.methods.values():
@@ -1262,7 +1359,7 @@ def rule_placeholders(ctx):
     shaped = []
     for c in sorted(cands):
         for r, v in rets:
-            tvv = _Flatten(tv, c).val(v.elts[0])
+            tvv = _Flatten(tv, c, pfields).val(v.elts[0])
             if isinstance(tvv, tuple) and tvv[0] == 'join' and tvv[2] == 'firsts':
                 shaped.append(c)
                 break
@@ -1316,8 +1413,7 @@ def rule_placeholders(ctx):
     # flatten step in to_sql
     general = 0
     for r, v in rets:
-        fl = _Flatten(tv, conds)
-        a, b = fl.val(v.elts[0]), _Flatten(tv, conds).val(v.elts[1])
+        a, b = _Flatten(tv, conds, pfields).val(v.elts[0]), _Flatten(tv, conds, pfields).val(v.elts[1])
         what = f'return {norm(v)[:90]}'
         if a == ('str', '') and b == 'empty':
             facts = [f for t, pol, _ in guards_of(r) for at, p in conjuncts(t, pol) for f in [_emptiness_fact(at, p, conds)]]
@@ -1422,6 +1518,31 @@ def _numeric_optionals(cls):
 
 
 # ---------------------------------------------------------------- R4..R6 ---
+def _module_values(fi):
+    """module-level names bound exactly once to a literal or to a constructor call with literal arguments
+    (`_EPOCH = date(1970, 1, 1)`), not shadowed in fi: reading the name is reading that value"""
+    out = {}
+    seen = Counter()
+    for st in fi.module.tree.body:
+        for t, _, _ in stores_to(st):
+            if isinstance(t, ast.Name):
+                seen[t.id] += 1
+    for name, v in fi.module.constants.items():
+        if seen[name] != 1 or name in fi.params or local_defs(fi.node, name):
+            continue
+        args = list(v.args) + [k.value for k in v.keywords] if isinstance(v, ast.Call) else None
+        if const_value(v) is not None or (args is not None and dotted_name(v.func) and
+                                          all(const_value(a) is not None for a in args)):
+            out[name] = v
+    return out
+
+
+def _body_text(fi) -> str:
+    """normalised text of the function's statements, module-level constant values written out"""
+    env = _module_values(fi)
+    return ' '.join(norm(_clone(s_, env) if env else s_) for s_ in fi.node.body)
+
+
 def _sql_text(fi, name='sql'):
     d = [st for t, st, how in stores_to(fi.node) if isinstance(t, ast.Name) and t.id == name and how in ('assign',)]
     if not d:
@@ -1483,7 +1604,7 @@ def rule_columns(ctx):
     ctx.ob('C14-R4', qs, 'origin columns from ao, destination columns from ad', ok, 'aliases agree with joins' if ok else
            'origin/destination columns are taken from the wrong airport alias', line=st.lineno)
     # limit / offset
-    src = ' '.join(norm(s) for s in qs.node.body)
+    src = _body_text(qs)
     ok = "sql += f' LIMIT {self.limit}'" in src and "sql += f' OFFSET {self.offset}'" in src
     ctx.ob('C14-R6', qs, 'limit and offset appended after ordering', ok, 'LIMIT then OFFSET' if ok else 'limit/offset handling changed')
     # frequent routes
@@ -1500,13 +1621,13 @@ def rule_columns(ctx):
     ok = got == {'airport1': 'row[0]', 'airport2': 'row[1]', 'number_of_flights': 'row[2]'}
     ctx.ob('C14-R4', ffr, f'{got}', ok, 'fields follow the SELECT order' if ok else 'frequent-route fields read the wrong columns')
     cq = qm.func('CountQuery.to_sql')
-    src = ' '.join(norm(s) for s in cq.node.body)
+    src = _body_text(cq)
     ok = "sql = 'SELECT COUNT(s.id) FROM schedules s'" in src and 'JOIN flights f ON f.id = s.flight_id' in src
     ctx.ob('C14-R4', cq, 'count query counts instances with the same joins', ok, 'COUNT(s.id)' if ok else 'count query changed')
 
     # R6 dates
     cc = qm.func('QueryBase._common_conditions')
-    src = ' '.join(norm(s) for s in cc.node.body)
+    src = _body_text(cc)
     ok = "self._conditions.append('s.departure_timestamp >= ?')" in src and \
         'self._params.append(int(date_to_timestamp(self.start_date).timestamp()))' in src
     ctx.ob('C14-R6', cc, 'start date inclusive from midnight UTC', ok, '>= midnight(start)' if ok else 'start bound changed')
@@ -1515,9 +1636,9 @@ def rule_columns(ctx):
     ctx.ob('C14-R6', cc, 'end date inclusive: strictly before midnight of the following day', ok,
            '< midnight(end + 1 day)' if ok else 'end bound changed (end date no longer inclusive, or a day too many)')
     dt = qm.func('date_to_timestamp')
-    ok = 'pd.Timestamp(d, tzinfo=UTC)' in ' '.join(norm(s) for s in dt.node.body)
+    ok = 'pd.Timestamp(d, tzinfo=UTC)' in _body_text(dt)
     ctx.ob('C14-R6', dt, 'dates are UTC midnights', ok, 'tzinfo=UTC' if ok else 'date conversion is no longer UTC midnight', nontrivial=False)
-    src = ' '.join(norm(s) for s in qs.node.body)
+    src = _body_text(qs)
     ok = "'(s.day - ?) % ? = 0'" in src and '(self.start_date - date(1970, 1, 1)).days' in src and \
         "'(s.day - (SELECT MIN(day) FROM schedules)) % ? = 0'" in src
     ctx.ob('C14-R6', qs, 'every-nth-day anchored at the start day (or first day in the data)', ok,
@@ -1553,7 +1674,7 @@ def rule_columns(ctx):
            'counts airport/country/continent/bounding_box in each of the three positions' if ok else
            'the compatibility rule of spatial filters changed')
     sp = fm.func('Filter._spatial')
-    src = ' '.join(norm(s) for s in sp.node.body)
+    src = _body_text(sp)
     ok = "origin = getattr(self, 'origin_' + attr)" in src and "destination = getattr(self, 'destination_' + attr)" in src \
         and 'both = getattr(self, attr)' in src
     ctx.ob('C14-R5', sp, 'positions read the attribute of their own prefix', ok, 'both / origin_ / destination_' if ok else
